@@ -381,15 +381,44 @@ class ProductState:
 
         destroyed = [s for s in states if not isinstance(s, CustomState)]
         if destructive and len(destroyed) > 0:
-            # Get correct Composite Envelope
-            if isinstance(
-                CompositeEnvelope._instances[self.container.composite_uid], list
-            ):
-                other_outcomes = CompositeEnvelope._instances[
-                    self.container.composite_uid
-                ][0].measure(*destroyed)
-                for s in destroyed:
-                    del other_outcomes[s]
+            # The measured states are discarded: trace them out of the product state
+            remaining = [
+                s for s in self.state_objs if not any(s is d for d in destroyed)
+            ]
+            if len(remaining) > 0:
+                self.state = self.trace_out(*remaining)
+            else:
+                self.state = jnp.array([[1]])
+            self.state_objs = remaining
+            partners = []
+            for s in destroyed:
+                s._set_measured()
+                envelope = getattr(s, "envelope", None)
+                if envelope is not None:
+                    partner = (
+                        envelope.polarization
+                        if s is envelope.fock
+                        else envelope.fock
+                    )
+                    if not partner.measured and not any(
+                        partner is d for d in destroyed
+                    ):
+                        partners.append(partner)
+            composite_envelope = CompositeEnvelope._instances[
+                self.container.composite_uid
+            ][0]
+            composite_envelope.container.update_all_indices()
+            # The other parts of the consumed envelopes are measured as well
+            if len(partners) > 0:
+                other_outcomes = composite_envelope.measure(
+                    *partners, separate_measurement=True, destructive=True
+                )
+            for s in destroyed:
+                envelope = getattr(s, "envelope", None)
+                if envelope is not None and not envelope.measured:
+                    envelope._set_measured()
+            composite_envelope.container.remove_empty_product_states()
+            composite_envelope.container.update_all_indices()
         if C.contractions:
             self.contract()
         return (outcome, other_outcomes)
